@@ -3,7 +3,22 @@ package main
 import (
 	"sort"
 	"strings"
+	"time"
+
+	"github.com/robfig/soy/data"
+	"github.com/robfig/soy/template"
 )
+
+// compile-time globals of the C01ctx bundles (plain and dotted names, every scalar type)
+var c01Globals = data.Map{"G_ONE": data.Int(1), "G_NEG": data.Int(-2), "app.KEY": data.String("a"), "app.cfg.RATE": data.Float(2.5), "G_T": data.Bool(true), "G_NULL": data.Null{}, "G_S": data.String("<g>")}
+
+// expressions over globals: a global must be substituted wherever an expression may stand
+var c01GlobalExprs = []struct {
+	e string
+	t ty
+}{{"G_ONE", tInt}, {"G_NEG", tInt}, {"G_ONE + 1", tInt}, {"-G_NEG", tInt}, {"app.KEY", tStr}, {"app.KEY + G_S", tStr}, {"app.cfg.RATE", tFloat}, {"app.cfg.RATE * G_ONE", tFloat},
+	{"G_T", tBool}, {"not G_T", tBool}, {"G_NULL", tNull}, {"G_NULL ?: G_ONE", tInt}, {"G_T ? G_ONE : G_NEG", tInt}, {"$l[G_ONE]", tInt}, {"$m[app.KEY]", tInt}, {"$ll[G_ONE][G_ONE - 1]", tInt},
+	{"$l?[G_ONE]", tInt}, {"max(G_ONE, G_NEG)", tInt}, {"[G_ONE, G_NEG]", tList}, {"['k': G_S]", tMap}, {"length([G_ONE, G_ONE])", tInt}, {"$m[app.KEY] + $l[G_ONE + G_ONE]", tInt}}
 
 // C01ctx: "every expression that is valid Soy is accepted by the compiler wherever an expression may
 // appear" and means the same there.  A generated valid expression E is placed in every syntactic
@@ -56,8 +71,10 @@ var c01Contexts = []ctxShape{
 	{"map-value", "{let $y9: ['k': %E] /}{$y9['k']}", "{print (%E)}", tAny, false},
 	{"map-value-second", "{let $y9: ['j': 0, 'k': %E] /}{$y9.k}", "{print (%E)}", tAny, false},
 	{"map-key", "{let $y9: [%E: 'v'] /}{$y9[%E]}", "{let $y9: [(%E): 'v'] /}{$y9[(%E)]}", tStr, false},
-	{"index", "{$l[%E]}", "{$l[(%E)]}", tInt, false},
-	{"index-nullsafe", "{$l?[%E]}", "{$l?[(%E)]}", tInt, false},
+	{"index", "{$l[%E]}", "{let $x9: %E /}{$l[$x9]}", tInt, false},
+	{"index-nullsafe", "{$l?[%E]}", "{let $x9: %E /}{$l?[$x9]}", tInt, false},
+	{"index-nested", "{$ll[1][%E]}", "{let $x9: %E /}{$ll[1][$x9]}", tInt, false},
+	{"index-of-map", "{$m[%E]}", "{let $x9: %E /}{$m[$x9]}", tStr, false},
 	{"func-arg", "{max(%E, 0)}", "{max((%E), 0)}", tNum, false},
 	{"func-arg2", "{min(0, %E)}", "{min(0, (%E))}", tNum, false},
 	{"ternary-then", "{true ? %E : 0}", "{print (%E)}", tAny, false},
@@ -97,7 +114,11 @@ func directC01ctx(g *G, rep *Report) {
 	ij := toData(stdIj())
 	types := []ty{tInt, tInt, tFloat, tStr, tStr, tBool, tNull, tList, tMap, tNum}
 	run := func(body string) (string, string, string) {
-		reg, err := compileBundle(c01ctxBundle(body))
+		var reg *template.Registry
+		var err error
+		if c := guarded(10*time.Second, func() { reg, err = compileWithGlobals(c01ctxBundle(body), c01Globals) }); c != "" {
+			return "", "COMPILE-" + c, c
+		}
 		if err != nil {
 			return "", "COMPILE-ERR", err.Error()
 		}
@@ -110,19 +131,24 @@ func directC01ctx(g *G, rep *Report) {
 		eg := &exprGen{r: r, funcs: true, redundantParens: []int{0, 10, 40}[i%3], illTyped: 0, noUndefined: i%2 == 0}
 		t := types[r.Intn(len(types))]
 		var e string
-		switch r.Intn(8) {
-		case 0: // leading unary minus / not: the token after the opening delimiter is the delicate one
-			if t == tInt || t == tFloat || t == tNum {
-				e = "-" + eg.operand(1+r.Intn(2), t, 0)
-			} else if t == tBool {
-				e = "not " + eg.operand(1+r.Intn(2), t, 0)
-			} else {
+		if i%9 == 8 {
+			ge := c01GlobalExprs[(i/9)%len(c01GlobalExprs)]
+			e, t = ge.e, ge.t
+		} else {
+			switch r.Intn(8) {
+			case 0: // leading unary minus / not: the token after the opening delimiter is the delicate one
+				if t == tInt || t == tFloat || t == tNum {
+					e = "-" + eg.operand(1+r.Intn(2), t, 0)
+				} else if t == tBool {
+					e = "not " + eg.operand(1+r.Intn(2), t, 0)
+				} else {
+					e = eg.expr(1+r.Intn(3), t)
+				}
+			case 1:
+				e = eg.atom(t)
+			default:
 				e = eg.expr(1+r.Intn(3), t)
 			}
-		case 1:
-			e = eg.atom(t)
-		default:
-			e = eg.expr(1+r.Intn(3), t)
 		}
 		nt := strings.ContainsAny(e, "+-*/%<>=?([.") || strings.Contains(e, " and ") || strings.Contains(e, " or ") || strings.Contains(e, "not ")
 		for _, cx := range c01Contexts {
